@@ -226,10 +226,13 @@ def main():
     rep.cov["exhaustive"] = False
     rep.assumptions = [
         "modelled, not verified: NodeSemDefs.v/NodeSemReg.v are hand transcriptions; agreement with the C++ is established by sampled differential runs (here and in C03)",
-        "node level only: the lifting to whole circuits (run_compat / C08_circuit) is a separate package built on eval_compat / eval_mono / reg_*_compat",
+        "circuit level: run_compat / mrun_compat lift eval_compat / reg_*_compat / mem_*_compat over evaluation order and cycles (NetRefine.v, NetMemRefine.v); checks/C08b.py runs abstract vs refined stimuli on the real simulator",
         "refinement of parameters (constants with undefined bits, register reset values) is not enumerated, only operand bits",
-        "memory ports (Node_MemPort) are not part of this package",
+        "memory ports at node level: C07's mem_compat / mem_read_compat; at circuit level NetMemRefine.v (C08_circuit_with_memories) over the cycle semantics NetMemDefs.v, which C07's certificate tie validates against the real simulator",
+        "circuit-level theorems assume the ports of a memory agree on the word width and previous-write-port lists name ports of the same memory (mnl_wf, decidable: mnl_wfb); undefined power-on memory contents cannot be concretised through the simulator API, so the differential run refines stimuli only",
     ]
+    import C08b
+    C08b.run(rep)
     rep.finish()
 
 
